@@ -333,3 +333,34 @@ func (i *Instance) BucketTree(bucket string) (dirs, files []string, err error) {
 	sort.Strings(files)
 	return dirs, files, err
 }
+
+// BoltSetSync switches fsync on commit on or off for a bolt instance (on: every commit takes as
+// long as on a production store, which widens the window between two commits of one request)
+func (i *Instance) BoltSetSync(sync bool) {
+	if i.boltDB != nil {
+		i.boltDB.NoSync = !sync
+	}
+}
+
+// BoltSnapshot writes the bolt database as it is committed at this moment (a read transaction's
+// view: exactly what a process killed now would find on restart) to dst
+func (i *Instance) BoltSnapshot(dst string) error {
+	if i.boltDB == nil {
+		return fmt.Errorf("not a bolt instance")
+	}
+	return i.boltDB.View(func(tx *bolt.Tx) error { return tx.CopyFile(dst, 0600) })
+}
+
+// OpenBoltFile starts a server on an existing bolt file (a snapshot)
+func OpenBoltFile(path string, opts ...gofakes3.Option) (*Instance, error) {
+	db, err := bolt.Open(path, 0600, &bolt.Options{NoSync: true, NoFreelistSync: true, Timeout: 2 * time.Second})
+	if err != nil {
+		return nil, err
+	}
+	inst := &Instance{Kind: "bolt", opts: opts, boltDB: db}
+	inst.Backend = s3bolt.New(db, s3bolt.WithTimeSource(gofakes3.FixedTimeSource(FixedTime)))
+	inst.closers = append(inst.closers, func() { db.Close() })
+	inst.G = gofakes3.New(inst.Backend, append([]gofakes3.Option{gofakes3.WithTimeSkewLimit(0)}, opts...)...)
+	inst.H = inst.G.Server()
+	return inst, nil
+}
